@@ -1,0 +1,47 @@
+//go:build verif
+
+package vgirpc
+
+import "net/http"
+
+// Verification hooks (build tag "verif") for response-compression
+// negotiation. Add-only thin wrappers; nothing here is compiled into normal
+// builds.
+
+// Header and content-type names used by the negotiation.
+const (
+	VerifC17AcceptEncodingHeader        = acceptEncodingHeader
+	VerifC17CustomAcceptEncodingHeader  = customAcceptEncodingHeader
+	VerifC17ContentEncodingHeader       = contentEncodingHeader
+	VerifC17CustomContentEncodingHeader = customContentEncodingHeader
+	VerifC17SupportedEncodingsHeader    = supportedEncodingsHeader
+	VerifC17ArrowContentType            = arrowContentType
+	VerifC17IdentityEncoding            = identityEncoding
+)
+
+// VerifC17SupportedEncodings returns a copy of the compiled-in codec list.
+func VerifC17SupportedEncodings() []string {
+	return append([]string(nil), supportedEncodings...)
+}
+
+// VerifC17ParseAcceptEncoding exposes parseAcceptEncoding.
+func VerifC17ParseAcceptEncoding(header string) []string {
+	return parseAcceptEncoding(header)
+}
+
+// VerifC17Choose exposes chooseResponseEncoding.
+func VerifC17Choose(custom, standard string, producible []string) (string, bool) {
+	return chooseResponseEncoding(custom, standard, producible)
+}
+
+// VerifC17Producible exposes producibleResponseEncodings.
+func (h *HttpServer) VerifC17Producible() []string {
+	return append([]string(nil), h.producibleResponseEncodings()...)
+}
+
+// VerifC17Handle mounts an extra handler on the server's mux, so that a
+// response with an arbitrary content type and body travels through the real
+// ServeHTTP negotiation and compressResponseWriter.finish.
+func (h *HttpServer) VerifC17Handle(pattern string, handler http.Handler) {
+	h.mux.Handle(pattern, handler)
+}
